@@ -92,6 +92,61 @@ func runTranscriptR(seed int64, hid, nTx int, yield func(), restartEvery int) (d
 	return digests, rc.Viol, rc.Cov.Inconcl
 }
 
+// c18ExtremesTranscript: a fixed history on the standard chain (ledger double, so every amount is payable): for every
+// amount class and the values around 2^31, 2^32, 2^63 and 2^64 one mint to a user, a burn limit of exactly that amount
+// and a deposit of exactly that amount by the same user. Every process must produce the same transcript, whatever its
+// node-local settings (GOMAXPROCS, time zone, telemetry on or off).
+func c18ExtremesTranscript(seed int64) (digests []string, viol []Violation, inc []string) {
+	rc := &RunCtx{ID: "C18", Tier: "quick", Seed: seed, Cov: NewCov()}
+	rc.Rand = newRand(seed*31 + 9)
+	gs := StdGenesis()
+	f, allow := DefaultFunding(rc.Rand, true)
+	cfg := chain.Config{Genesis: gs, Funded: f, Allowance: allow, Double: true}
+	headerStyle(&cfg, 1)
+	e, err := NewEngine(rc, cfg)
+	if err != nil {
+		return nil, nil, []string{"extremes transcript engine: " + err.Error()}
+	}
+	var amts []*big.Int
+	for _, c := range AmountClasses {
+		amts = append(amts, c.V)
+	}
+	for _, sh := range []uint{31, 32, 63} {
+		amts = append(amts, new(big.Int).Sub(pow2(sh), big.NewInt(1)), pow2(sh), new(big.Int).Add(pow2(sh), big.NewInt(1)))
+	}
+	digest := func(rep *Report) {
+		h := sha256.New()
+		fmt.Fprintf(h, "%d|%s|", rep.Res.Code, rep.Res.Codespace)
+		h.Write(rep.Res.Data)
+		if !rep.Res.IsPanic() {
+			h.Write([]byte(rep.Res.Log))
+		}
+		for _, ev := range rep.Res.Events {
+			h.Write([]byte(ev.Type))
+			for _, a := range ev.Attributes {
+				h.Write([]byte(a.Key + "\x00" + a.Value + "\x01"))
+			}
+		}
+		h.Write(e.C.AppHash)
+		digests = append(digests, hex.EncodeToString(h.Sum(nil))[:10])
+	}
+	nonce := uint64(880_000)
+	for i, a := range amts {
+		nonce++
+		raw := StdInbound(nonce, UserIx, a).Bytes()
+		digest(e.Exec(Tx{Msgs: msgs1(&ct.MsgReceiveMessage{From: Acct(OtherIx), Message: raw, Attestation: e.Attest(raw, i%3)}), Note: "C18 extremes: mint " + amountClass(a)}))
+		digest(e.Exec(Tx{Msgs: msgs1(&ct.MsgSetMaxBurnAmountPerMessage{From: e.M.TC, LocalToken: "uusdc", Amount: mkInt(a)}), Note: "C18 extremes: limit " + amountClass(a)}))
+		if i%2 == 0 {
+			digest(e.Exec(Tx{Msgs: msgs1(&ct.MsgDepositForBurn{From: Acct(UserIx), Amount: mkInt(a), DestinationDomain: uint32(i % 3), MintRecipient: Structured32(byte(i + 1)), BurnToken: "uusdc"}), Note: "C18 extremes: deposit " + amountClass(a)}))
+		} else {
+			digest(e.Exec(Tx{Msgs: msgs1(&ct.MsgDepositForBurnWithCaller{From: Acct(UserIx), Amount: mkInt(a), DestinationDomain: uint32(i % 3), MintRecipient: Structured32(byte(i + 1)), BurnToken: "uusdc", DestinationCaller: Structured32(byte(i + 9))}), Note: "C18 extremes: deposit " + amountClass(a)}))
+		}
+	}
+	fh := chain.HashDump(e.C.DumpAll())
+	digests = append(digests, "final:"+hex.EncodeToString(fh[:])[:16])
+	return digests, rc.Viol, rc.Cov.Inconcl
+}
+
 // resultDigest: everything a submitter or an indexer sees of one transaction, without block-level values.
 func resultDigest(r *chain.TxResult) string {
 	h := sha256.New()
@@ -461,6 +516,11 @@ func runC18(rc *RunCtx) {
 		d, v, inc := runTranscriptR(rc.Seed, hb, nTx, nil, every)
 		rec(hb, fmt.Sprintf("restart-every-%d", every), d, v, inc)
 	}
+	// (b0) the fixed extremes history, in every process
+	{
+		d, v, inc := c18ExtremesTranscript(rc.Seed)
+		rec(900, "fixed-extremes", d, v, inc)
+	}
 	// (b+) the same transactions packed 2, 7 and all-in-one to a block
 	c18BlockPartition(rc, rc.Seed, (hid+1)%H, nTx, []int{2, 7, 1 << 30, 1})
 	// (b++) query answers are independent of concurrent instances and of requests served earlier in the process
@@ -641,7 +701,7 @@ func init() {
 			if v, _ := c.Extra["race_log_parsed"].(bool); !v {
 				miss = append(miss, "race pass did not run")
 			}
-			for _, m := range []string{"fresh-process", "after-unrelated-histories", "restart-every-3", "restart-every-11", "concurrent", "race:concurrent-instances", "race:parallel-queries"} {
+			for _, m := range []string{"fixed-extremes", "fresh-process", "after-unrelated-histories", "restart-every-3", "restart-every-11", "concurrent", "race:concurrent-instances", "race:parallel-queries"} {
 				if c.Matrix["C18_modes"][m] == 0 {
 					miss = append(miss, "mode not exercised: "+m)
 				}
